@@ -9,6 +9,7 @@ import (
 	"io"
 	"math/rand"
 	"net"
+	"os"
 	"os/exec"
 	"strings"
 	"sync"
@@ -412,12 +413,11 @@ func hostileBytes(class string, rnd *rand.Rand, v primitive.ProtocolVersion) (pr
 		return "none", "", encodeFrame(frame.NewFrame(v, 1, &message.Startup{Options: opts}))
 	case "nonreader_flood":
 		_ = pick(1)
-		pre = "startup"
 		var b bytes.Buffer
 		for q := 0; q < 2500; q++ {
 			b.Write(validQuery(v, int16(1+q), fmt.Sprintf("SELECT * FROM ks.t WHERE k = 'tokflood%d;'", q)))
 		}
-		payload = b.Bytes()
+		return "startup", "", b.Bytes()
 	case "hostile_auth":
 		return "startup", "", encodeFrame(frame.NewFrame(v, 1, &message.AuthResponse{Token: []byte("x")}))
 	}
@@ -658,6 +658,19 @@ func init() {
 						atomic.StoreInt64(&c.BigEvery, 1)
 						go func() { _, _ = nc.Write(payload) }()
 						time.Sleep(1500 * time.Millisecond)
+						if os.Getenv("VERIF_DEBUG_FLOOD") != "" {
+							tot := 0
+							buf := make([]byte, 1<<20)
+							for {
+								_ = nc.SetReadDeadline(time.Now().Add(300 * time.Millisecond))
+								n, err := nc.Read(buf)
+								tot += n
+								if err != nil {
+									break
+								}
+							}
+							fmt.Fprintf(os.Stderr, "flood: %d bytes were waiting for the offender\n", tot)
+						}
 						nc.Close()
 						atomic.StoreInt64(&c.BigEvery, 0)
 						res.Outcomes["closed"]++
